@@ -2,6 +2,7 @@ import PyomaVerif.Model.Multi
 import PyomaVerif.Lemmas.Realise
 import PyomaVerif.Lemmas.Merge
 import PyomaVerif.Lemmas.Multi
+import PyomaVerif.Props.C01
 import Mathlib.Data.List.Perm.Basic
 import Mathlib.Data.List.Sort
 /-!
@@ -256,5 +257,46 @@ theorem C03_assembled {n : ℕ} (A M1 : Matrix (Fin n) (Fin n) K) (br nref : ℕ
   congr 1
   unfold obsFn
   rw [blk_mod ii hk, blk_div ii hk, blk_mod ii hs', blk_div ii hs', hC2 jj nm k hjj hk]
+
+end PV.C03
+
+namespace PV.C03
+open PV PV.Multi Matrix
+
+variable {K : Type} [Field K]
+
+/-- **C03_identify.** Put together: if the interleaved matrix `Obs_all` (entry function `obsAll`, `br`
+    block rows of `nDOF` sensors, order `n`) is row by row the global block observability matrix times an
+    invertible `M1` — which is what `C03_assembled` establishes from the re-basing — then the state matrix
+    the multi-setup routine realises at order `n` (one QR of the order-`N` matrix, leading blocks,
+    `R⁻¹`: the same `fastA` as the single-setup routine) is `M1⁻¹·A·M1`, whatever the per-setup gains
+    and bases were, and its output matrix is `C_global·M1`: global poles, global shapes over all sensors
+    (`eig_transfer`). -/
+theorem C03_identify {M N n : ℕ} (hn : n ≤ N) (Op Om Q R Rinv : Mat K)
+    (hRc : Rinv.c = n) (hQr : Q.r = M)
+    (hQR : toMx M N Op.e = toMx M N Q.e * toMx N N R.e)
+    (hOrth : (toMx M N Q.e)ᵀ * toMx M N Q.e = 1)
+    (hTri : ∀ i j, j < i → R.e i j = 0)
+    (hRinv : toMx n n Rinv.e * toMx n n R.e = 1)
+    (A M1 M1inv : Matrix (Fin n) (Fin n) K) (hM : M1 * M1inv = 1)
+    (nDOF : ℕ) (Cglob : ℕ → Fin n → K)
+    -- rows of the upper / lower part of Obs_all are the global observability rows times M1
+    (hUp : ∀ (i : Fin M) (j : Fin n), Op.e i.1 j.1 = ∑ k, obsFn nDOF A Cglob i.1 k * M1 k j)
+    (hDn : ∀ (i : Fin M) (j : Fin n), Om.e i.1 j.1 = ∑ k, obsFn nDOF A Cglob (i.1 + nDOF) k * M1 k j)
+    (hDOF : 0 < nDOF) :
+    toMx n n (fastA Rinv Q Om n).e = M1inv * A * M1 := by
+  let Oup : Matrix (Fin M) (Fin n) K := Matrix.of fun i k => obsFn nDOF A Cglob i.1 k
+  have h1 : toMx M n Op.e = Oup * M1 := by
+    ext i j
+    simp only [toMx, Matrix.mul_apply, Oup, Matrix.of_apply]
+    exact hUp i j
+  have h2 : toMx M n Om.e = Oup * A * M1 := by
+    ext i j
+    simp only [toMx, Matrix.mul_apply, Oup, Matrix.of_apply]
+    rw [hDn i j]
+    apply Finset.sum_congr rfl
+    intro k _
+    rw [obs_shift nDOF hDOF A Cglob i.1 k]
+  exact PV.C01.C01_realisation_fast hn Op Om Q R Rinv hRc hQr hQR hOrth hTri hRinv Oup A M1 M1inv hM h1 h2
 
 end PV.C03
